@@ -5,6 +5,7 @@ import io
 import math
 import re
 
+from hypothesis import assume
 from hypothesis import strategies as st
 
 from ..core import Facet, Violation
@@ -512,6 +513,68 @@ def check_document_full(case):
     return labs, nt
 
 
+# ------------------------------------------------------------------ facet 4: tags that are not CIF data names
+
+
+@st.composite
+def odd_tag_cases(draw):
+    cls = draw(st.sampled_from(["blank", "blank", "tab", "newline", "empty", "non-ascii", "non-ascii", "trailing-blank"]))
+    a, b = draw(word), draw(word)
+    odd = {"blank": a + " " + b, "tab": a + "\t" + b, "newline": a + "\n" + b, "empty": "",
+           "non-ascii": a + draw(st.sampled_from(["é", "λ", "漢", "Å"])) + draw(st.sampled_from(["", b])),
+           "trailing-blank": a + " "}[cls]
+    keys = [draw(tag_name), odd, draw(tag_name)]
+    assume(len({k.lower() for k in keys}) == 3)
+    return {"cls": cls, "kind": draw(st.sampled_from(["chunk", "loop", "chunk-setitem", "loop-setitem"])),
+            "keys": keys[draw(st.integers(0, 1)):], "nrows": draw(st.integers(1, 3))}
+
+
+def check_odd_tag(case):
+    """A tag (dict key / column name) that is not a CIF data name: containing blanks or line breaks,
+    empty, or non-ASCII.  The statement quantifies over *any document produced from chunks, loops,
+    blocks*: whatever is written must be valid CIF 1.1 in which no value is mistaken for a tag --
+    so such a tag must be refused (ValueError, as the package does for block names) or, for
+    non-ASCII tags, escaped to ASCII; it must never be written as it is."""
+    import scipp as sc
+    from scippneutron.io import cif
+
+    keys, n = case["keys"], case["nrows"]
+    labs = ["tag:" + case["cls"], "kind:" + case["kind"]]
+    try:
+        if case["kind"] == "chunk":
+            item = cif.Chunk({k: i for i, k in enumerate(keys)})
+        elif case["kind"] == "chunk-setitem":
+            item = cif.Chunk({})
+            for i, k in enumerate(keys):
+                item[k] = i
+        elif case["kind"] == "loop":
+            item = cif.Loop({k: sc.arange("row", i, i + n, unit=None) for i, k in enumerate(keys)})
+        else:
+            item = cif.Loop({})
+            for i, k in enumerate(keys):
+                item[k] = sc.arange("row", i, i + n, unit=None)
+        text = write_doc([cif.Block("b", [item])])
+    except ValueError:
+        return [*labs, "refused"], True
+    if case["cls"] != "non-ascii":
+        raise Violation("odd-tag-written", f"a {case['kind']} with the tag {keys[-2] if len(keys) == 3 else keys[0]!r} "
+                        f"(keys {keys!r}) was written instead of refused", {"text": text[:600]})
+    blocks, _ = parse_checked(text)
+    items = blocks[0]["items"] if blocks else []
+    if case["kind"].startswith("chunk"):
+        got = [(it[1], it[2][1]) for it in items if it[0] == "pair"]
+        want = [(k, str(i)) for i, k in enumerate(keys)]
+    else:
+        loops = [it for it in items if it[0] == "loop"]
+        got = [(t, [r[j][1] for r in loops[0][2]]) for j, t in enumerate(loops[0][1])] if loops else []
+        want = [(k, [str(i + r) for r in range(n)]) for i, k in enumerate(keys)]
+    ok = len(got) == len(want) and all(
+        t.startswith("_") and text_matches(t[1:], k) and v == w for (t, v), (k, w) in zip(got, want, strict=False))
+    if not ok:
+        raise Violation("odd-tag-roundtrip", f"keys {keys!r} parsed back as {got!r}, expected {want!r}", {"text": text[:600]})
+    return [*labs, "escaped"], True
+
+
 # ------------------------------------------------------------------ facet 3: high-level builder programs
 
 
@@ -865,6 +928,10 @@ FACETS = [
     Facet("builder", check_builder, strategy=lambda tier: builder_cases(),
           quick=(6, 200), thorough=(16, 3000), min_nontrivial=0.3,
           doc="high-level CIF builder programs incl. authors/roles/ids, beamline, reducers, powder data, calibration"),
+    Facet("odd_tags", check_odd_tag, strategy=lambda tier: odd_tag_cases(),
+          quick=(1, 300), thorough=(4, 2000), min_nontrivial=0.5,
+          doc="chunks / loops whose tag contains blanks, line breaks, nothing or non-ASCII text: refused, or "
+              "(non-ASCII) escaped; never written as it is"),
 ]
 
 
